@@ -269,3 +269,42 @@ pub fn rader_primes(lo: u64, hi: u64) -> Vec<u64> {
     v.dedup();
     v
 }
+
+/// Lengths generated from a grammar of factorisation patterns 2^a * 3^b * p^c [* q]: the planners branch on the exponents of
+/// 2 and 3 and on the number / size / multiplicity of the other prime factors, so every combination of a few representative
+/// values of each is included (bounded by `max`).  Used for the plan-only sweeps, where a length costs microseconds.
+pub fn pattern_lengths(max: u64) -> Vec<u64> {
+    let twos = [0u32, 1, 2, 3, 5, 6, 7, 8, 10, 13];
+    let threes = [0u32, 1, 2, 3, 5];
+    let primes = [5u64, 7, 11, 13, 17, 29, 31, 37, 47, 59, 83, 101, 257, 641];
+    let mut v = Vec::new();
+    for &a in &twos {
+        for &b in &threes {
+            let base = match 2u64.checked_pow(a).and_then(|x| x.checked_mul(3u64.pow(b))) {
+                Some(x) if x <= max => x,
+                _ => continue,
+            };
+            v.push(base);
+            for (i, &p) in primes.iter().enumerate() {
+                for c in 1..=3u32 {
+                    let x = match p.checked_pow(c).and_then(|y| y.checked_mul(base)) {
+                        Some(x) if x <= max => x,
+                        _ => break,
+                    };
+                    v.push(x);
+                    // a second, different prime
+                    for &q in primes.iter().skip(i + 1).step_by(3) {
+                        if let Some(y) = x.checked_mul(q) {
+                            if y <= max {
+                                v.push(y);
+                            }
+                        }
+                    }
+                }
+            }
+        }
+    }
+    v.sort();
+    v.dedup();
+    v
+}
